@@ -88,7 +88,7 @@ class SumLinearOperator(LinearOperator):
         from linear_operator.operators.diag_linear_operator import DiagLinearOperator
 
         if isinstance(other, ZeroLinearOperator):
-            return self
+            return other + self  # self, broadcast to the common shape
         elif isinstance(other, DiagLinearOperator):
             return AddedDiagLinearOperator(self, other)
         elif isinstance(other, SumLinearOperator):
